@@ -140,6 +140,13 @@ func role(e paths.Event, v ssa.Value) string {
 		if (x.Op == token.ADD || x.Op == token.SUB) && isIntType(x.Type()) {
 			return linearRole(e, x)
 		}
+		if info, ok := beCompose(x); ok {
+			name := fmt.Sprintf("be%d", 8*info.width)
+			if !info.big {
+				name = fmt.Sprintf("uint%d-other-order", 8*info.width)
+			}
+			return fmt.Sprintf("%s(%s@k%d)", name, role(e, info.base), info.off)
+		}
 		return "(" + role(e, x.X) + x.Op.String() + role(e, x.Y) + ")"
 	case *ssa.Call:
 		return callRole(e, x)
@@ -242,6 +249,20 @@ func callRole(e paths.Event, x *ssa.Call) string {
 		as := x.Call.Args
 		if c := x.Call.StaticCallee(); c != nil && c.Signature.Recv() != nil && len(as) > 0 {
 			as = as[1:] // drop the receiver
+		}
+		if strings.HasPrefix(name, "be") && len(as) == 1 {
+			// beN(x[lo:hi]) reads the N/8 octets of x from lo: the same role as the hand-written composition
+			arg := e.Resolve(as[0])
+			if sl, ok := arg.(*ssa.Slice); ok {
+				if _, isAlloc := sl.X.(*ssa.Alloc); !isAlloc {
+					off := "k0"
+					if sl.Low != nil {
+						off = role(e, sl.Low)
+					}
+					return name + "(" + role(e, sl.X) + "@" + off + ")"
+				}
+			}
+			return name + "(" + role(e, arg) + "@k0)"
 		}
 		for _, a := range as {
 			args = append(args, role(e, a))
@@ -484,9 +505,9 @@ func runC04(c *core.Ctx) {
 
 const (
 	roleP4   = "p1.Peek(k4)#0"
-	roleL    = "be32(p1.Peek(k4)#0)"
-	rolePF   = "p1.Peek(be32(p1.Peek(k4)#0))#0"
-	roleDisc = "p1.Discard(be32(p1.Peek(k4)#0))"
+	roleL    = "be32(p1.Peek(k4)#0@k0)"
+	rolePF   = "p1.Peek(be32(p1.Peek(k4)#0@k0))#0"
+	roleDisc = "p1.Discard(be32(p1.Peek(k4)#0@k0))"
 )
 
 func decodeRules(c *core.Ctx, key, pos string, ps []c04path) {
@@ -612,8 +633,8 @@ func decodeRules(c *core.Ctx, key, pos string, ps []c04path) {
 func blockedRules(c *core.Ctx, key, pos string, ps []c04path) {
 	const (
 		pre   = "make(k4)"
-		L     = "be32(make(k4))"
-		frame = "make(be32(make(k4)))"
+		L     = "be32(make(k4)@k0)"
+		frame = "make(be32(make(k4)@k0))"
 	)
 	rf1 := "ReadFull(p1," + pre + ")"
 	rf2 := "ReadFull(p1," + frame + "[k4:])"
